@@ -26,6 +26,8 @@ type Env struct {
 	preferLocals bool
 	selfT        Term
 	bound        map[string]bool
+	prevSt       *State // loop-head state of the current iteration (transition clauses)
+	prevLoop     *loop
 }
 
 func (ev *Env) with(cur *State) *Env {
@@ -551,6 +553,22 @@ func (ev *Env) call(e *ECall) Value {
 		o := ev.with(ev.old)
 		o.preferLocals = false
 		return o.eval(e.Args[0])
+	case "prev":
+		argn(1)
+		if ev.prevSt == nil {
+			ev.errf("prev() is only available in loop transition clauses")
+		}
+		pe := ev.fr.env(ev.prevSt, ev.old, ev.prevLoop)
+		for k, v := range ev.vars {
+			if ev.bound[k] {
+				pe.vars[k] = v
+				if pe.bound == nil {
+					pe.bound = map[string]bool{}
+				}
+				pe.bound[k] = true
+			}
+		}
+		return pe.eval(e.Args[0])
 	case "len":
 		argn(1)
 		x := ev.eval(e.Args[0])
